@@ -4,6 +4,7 @@
 set -u
 S="$1"   # e.g. /tmp/seed-C13/_seed
 export GOFLAGS=-mod=mod GOPROXY=off GOSUMDB=off GOTOOLCHAIN=local
+mkdir -p /tmp/seedverif && cp /verif/known-findings.json /tmp/seedverif/
 W=/tmp/ows
 git -C $W checkout -q -- . ; git -C $W clean -fdq
 prop=$(python3 -c "import json;print(json.load(open('$S/meta.json'))['property'])")
